@@ -4,6 +4,7 @@ package server
 // at the server level; the hit/miss decision is also compared with model M8's `lookup`.
 
 import (
+	"bytes"
 	"context"
 	"fmt"
 	"net/url"
@@ -211,6 +212,58 @@ func TestVerifServerACDeps(t *testing.T) {
 		rec.Distinct(fmt.Sprintf("inline-digest:%s:%v", which, present))
 		if (hcode == 200) != present || (gerr == nil) != present {
 			rec.Violation("C06", "acdeps.inline-and-digest."+which, fmt.Sprintf("%s carried inline and by digest, digest blob present=%v: HTTP GET %d, gRPC %v", which, present, hcode, status.Code(gerr)), nil)
+		}
+	}
+	// C11: stdout / stderr uploaded raw through gRPC (with or without their digest) and read back
+	// with and without inlining: the hit equals the upload with contents replaced by digests
+	for i := 0; i < 16; i++ {
+		rec.Case()
+		data := rng.Bytes(20 + i)
+		d := &pb.Digest{Hash: vSha(data), SizeBytes: int64(len(data))}
+		withDigest, stderr, inline := i&1 == 1, i&2 == 2, i&4 == 4
+		ar := &pb.ActionResult{ExitCode: int32(i)}
+		if stderr {
+			ar.StderrRaw = data
+			if withDigest {
+				ar.StderrDigest = d
+			}
+		} else {
+			ar.StdoutRaw = data
+			if withDigest {
+				ar.StdoutDigest = d
+			}
+		}
+		key := vSha(rng.Bytes(16))
+		if ok, det := f.vPutAC("grpc", key, "", ar); !ok {
+			rec.Violation("C11", "acdeps.raw-upload-refused", "gRPC upload with raw stdout/stderr refused: "+det, nil)
+			continue
+		}
+		got, gerr := f.ac.GetActionResult(ctx, &pb.GetActionResultRequest{ActionDigest: &pb.Digest{Hash: key, SizeBytes: 1}, InlineStdout: inline, InlineStderr: inline})
+		sig := fmt.Sprintf("raw-roundtrip:digest=%v:stderr=%v:inline=%v", withDigest, stderr, inline)
+		rec.Note(sig + fmt.Sprintf(" -> %v", status.Code(gerr)))
+		rec.Distinct(sig)
+		if gerr != nil {
+			rec.Violation("C11", "acdeps.raw-roundtrip.miss", "result with raw stdout/stderr is not served: "+gerr.Error(), sig)
+			continue
+		}
+		gd, graw := got.StdoutDigest, got.StdoutRaw
+		if stderr {
+			gd, graw = got.StderrDigest, got.StderrRaw
+		}
+		missingNow, _ := f.vMissing(d.Hash, d.SizeBytes)
+		blobThere := !missingNow
+		if inline {
+			if !bytes.Equal(graw, data) && !(gd != nil && gd.Hash == d.Hash && blobThere) {
+				rec.Violation("C11", "acdeps.raw-roundtrip.lost", "inlined read lost the stream: neither raw bytes nor a digest with its blob", sig)
+			}
+		} else {
+			if gd == nil || gd.Hash != d.Hash || gd.SizeBytes != d.SizeBytes {
+				if !bytes.Equal(graw, data) { // de-inlining may legitimately keep the bytes inline when the CAS put fails
+					rec.Violation("C11", "acdeps.raw-roundtrip.no-digest", fmt.Sprintf("read without inlining returned digest %v and %d raw bytes: the stream is lost", gd, len(graw)), sig)
+				}
+			} else if !blobThere {
+				rec.Violation("C11", "acdeps.raw-roundtrip.blob-absent", "digest returned but the blob is not in the CAS", sig)
+			}
 		}
 	}
 	rec.Set("rule", "11 ActionResult shapes (files, inline files, trees with root/child files, nil file digests, empty-blob refs, stdout/stderr) x every subset of absent referenced blobs (sampled above 16/256) x optional size mismatch; fresh blobs per case")
